@@ -1,0 +1,13 @@
+//go:build verif
+
+package ldiff
+
+// VerifBytesGenTupleRanges exposes genTupleRanges to the verification harness (C11 range arithmetic).
+func VerifBytesGenTupleRanges(from, to uint64, divideFactor int) [][2]uint64 {
+	tuples := genTupleRanges(from, to, divideFactor)
+	res := make([][2]uint64, 0, len(tuples))
+	for _, t := range tuples {
+		res = append(res, [2]uint64{t.from, t.to})
+	}
+	return res
+}
